@@ -750,7 +750,7 @@ static std::vector<Instance> instances(const std::string &tier) {
 	if(th) {
 		IN0(v.push_back(slab_inst<CfgTinyA>("tinyA-fix-0-9-1024-1025-L2" + sfx, 2, 0, F, {0, 9, 1024, 1025}, FIX));)
 		IN0(v.push_back(slab_inst<CfgTinyA>("tinyA-fix-8-1024-1025-L3" + sfx, 3, 0, F, {8, 1024, 1025}, FIX));)
-		IN0(v.push_back(slab_inst<CfgTinyA>("tinyA-fix-1024-1025-4097-L3" + sfx, 3, 0, F, {1024, 1025, 4097}, FIX));)
+		if(!c04) { IN0(v.push_back(slab_inst<CfgTinyA>("tinyA-fix-1024-1025-4097-L3" + sfx, 3, 0, F, {1024, 1025, 4097}, FIX));) }   // with 2 failures per history this fixpoint does not close in the budget
 		IN2(v.push_back(slab_inst<CfgSplit>("split-fix-16-300-513-L2" + sfx, 2, 0, F, {16, 300, 513}, FIX));)
 		IN2(v.push_back(slab_inst<CfgOdd>("odd-fix-8-8192-8193-L2" + sfx, 2, 0, F, {8, 8192, 8193}, FIX));)
 	}
